@@ -76,6 +76,14 @@ pub mod libc {
 pub const FICLONE: u32 = 0x40049409;
 pub const FIEMAP_EXTENT_LAST: u32 = 0x1;
 pub const FIEMAP_EXTENT_SHARED: u32 = 0x2000;
+// not used by the pinned code (values checked by the conformance build)
+pub const FIEMAP_EXTENT_UNKNOWN: u32 = 2;
+pub const FIEMAP_EXTENT_DELALLOC: u32 = 4;
+pub const FIEMAP_EXTENT_ENCODED: u32 = 8;
+pub const FIEMAP_EXTENT_DATA_INLINE: u32 = 512;
+pub const FIEMAP_EXTENT_UNWRITTEN: u32 = 2048;
+pub const FIEMAP_EXTENT_MERGED: u32 = 4096;
+pub const FIEMAP_FLAG_SYNC: u32 = 1;
 
 pub uninterp spec fn inode_of_raw(fd: i32) -> Inode;
 
